@@ -239,6 +239,7 @@ func Build(ps []Pos, o Opts) *State {
 		if o.DustVal && a == 0 && anyStake {
 			// reachable (seeded change C03-reset-skips...): the last delegator left while the record kept shares worth < 0.01 token
 			dust := nd.DecRange("dustvs", "0.000000000000000001", "0.009")
+			nd.Hint(dust.Equal(math.LegacyNewDecWithPrec(5, 3))) // regime for concrete witnesses only
 			tvs = tvs.Add(dust)
 			info := types.NewAllianceValidatorInfo()
 			info.ValidatorShares = sdk.NewDecCoins(sdk.NewDecCoinFromDec(denom, dust))
